@@ -6,6 +6,7 @@ CONSTANTS
   BinOps <- MC_OpsNarrow
   Maps <- MC_MapsDeep
   OnePairs <- MC_PairsNone
+  Routes = {}
   MaxUnits = 5
   MinUnits = 0
   MaxDepth = 1
